@@ -15,7 +15,9 @@ snapshots of every watched module at
 Supplied targets are clones of the online networks or, with
 ``cfg["target_offset"]``, clones whose every ``nnx.Param`` leaf was changed
 (``0.5 * x + c``): targets as a caller holds them after earlier training.
-``cfg["split"]`` (MR.Q) runs the history as two calls, the second continuing
+``cfg["supply_only"]`` ("first" / "second", routines with two targets): only the
+policy target / only the critic target is supplied, the other argument stays
+None.  ``cfg["split"]`` (MR.Q) runs the history as two calls, the second continuing
 at ``global_step = split`` with everything the first call returned.
 
 Modules that only the routine knows (TD7 fixed embeddings / checkpoints) are
@@ -219,12 +221,13 @@ def _run_ddpg(cfg, rec, logger, supply):
 
     env = _env(cfg, rec, discrete=False)
     policy, popt, q, qopt = _actor_critic_states(cfg, env, double_q=False)
-    pt = _supplied(policy, cfg, 0) if supply else None
-    qt = _supplied(q, cfg, 1) if supply else None
+    pt = _supplied(policy, cfg, 0) if supply and cfg.get("supply_only") != "second" else None
+    qt = _supplied(q, cfg, 1) if supply and cfg.get("supply_only") != "first" else None
     rec.watch("policy", policy)
     rec.watch("q", q)
-    if supply:
+    if pt is not None:
         rec.watch("policy_target", pt)
+    if qt is not None:
         rec.watch("q_target", qt)
     rec.snap("init")
     res = train_ddpg(env, policy, popt, q, qopt, seed=cfg["seed"], total_timesteps=cfg["total_timesteps"],
@@ -243,12 +246,13 @@ def _run_td3(cfg, rec, logger, supply, lap=False):
 
     env = _env(cfg, rec, discrete=False)
     policy, popt, q, qopt = _actor_critic_states(cfg, env, double_q=True)
-    pt = _supplied(policy, cfg, 0) if supply else None
-    qt = _supplied(q, cfg, 1) if supply else None
+    pt = _supplied(policy, cfg, 0) if supply and cfg.get("supply_only") != "second" else None
+    qt = _supplied(q, cfg, 1) if supply and cfg.get("supply_only") != "first" else None
     rec.watch("policy", policy)
     rec.watch("q", q)
-    if supply:
+    if pt is not None:
         rec.watch("policy_target", pt)
+    if qt is not None:
         rec.watch("q_target", qt)
     rec.snap("init")
     kw = dict(seed=cfg["seed"], total_timesteps=cfg["total_timesteps"], gamma=GAMMA, tau=cfg["tau"],
@@ -325,14 +329,15 @@ def _run_td7(cfg, rec, logger, supply):
     env = _env(cfg, rec, discrete=False)
     st = td7_states(cfg, env)
     env.action_space.seed(cfg["seed"])
-    at = _supplied(st.actor, cfg, 0) if supply else None
-    ct = _supplied(st.critic, cfg, 1) if supply else None
+    at = _supplied(st.actor, cfg, 0) if supply and cfg.get("supply_only") != "second" else None
+    ct = _supplied(st.critic, cfg, 1) if supply and cfg.get("supply_only") != "first" else None
     # names follow the logger's documented epoch names
     rec.watch("embedding", st.embedding)
     rec.watch("policy", st.actor)
     rec.watch("q", st.critic)
-    if supply:
+    if at is not None:
         rec.watch("policy_target", at)
+    if ct is not None:
         rec.watch("q_target", ct)
     from .instruments import state_arrays
 
@@ -381,12 +386,13 @@ def _run_mrq(cfg, rec, logger, supply):
                           encoder_zs_dim=3, encoder_za_dim=2, encoder_zsa_dim=3, encoder_hidden_nodes=HIDDEN,
                           encoder_learning_rate=cfg["lr"], seed=cfg["net_seed"])
     env.action_space.seed(cfg["seed"])
-    pt = _supplied(st.policy_with_encoder, cfg, 0) if supply else None
-    qt = _supplied(st.q, cfg, 1) if supply else None
+    pt = _supplied(st.policy_with_encoder, cfg, 0) if supply and cfg.get("supply_only") != "second" else None
+    qt = _supplied(st.q, cfg, 1) if supply and cfg.get("supply_only") != "first" else None
     rec.watch("policy_with_encoder", st.policy_with_encoder)
     rec.watch("q", st.q)
-    if supply:
+    if pt is not None:
         rec.watch("policy_with_encoder_target", pt)
+    if qt is not None:
         rec.watch("q_target", qt)
     rb = SubtrajectoryReplayBufferPER(cfg["buffer_size"], horizon=max(MRQ_ENC_H, MRQ_Q_H))
     pt0, qt0 = pt, qt
